@@ -4,10 +4,6 @@ package podtaskexecutor
 
 // Contracts for fvc (see /verif/DESIGN.md). Comment-only file.
 
-// ASSUMED here (decided for C18 in pkg/core/options): variable substitution of the pod spec
-//@ extern func SubstitutePodSpec
-//@   params rj, podSpec, taskSpec
-
 // The Pod created for (Job, parallel index, retry) carries that index's identity (C14) and is owned by the Job (C09).
 // The requires clause states that the package-level label key variables still have their distinct initial values.
 //@ func NewPod
@@ -77,3 +73,22 @@ package podtaskexecutor
 //@   loop 2 invariant forall k int :: {spec.Containers[k]} 0 <= k && k < len(spec.Containers) ==> (k <= rangeindex ? contDone(spec.Containers[k], old(spec.Containers[k]), sub) : spec.Containers[k] == old(spec.Containers[k]))
 //@   ensures [C18] every-init-container-substituted: len(result.InitContainers) == len(spec.InitContainers) && (forall k int :: {result.InitContainers[k]} 0 <= k && k < len(spec.InitContainers) ==> contDone(result.InitContainers[k], old(spec.InitContainers[k]), sub))
 //@   ensures [C18] every-container-substituted: len(result.Containers) == len(spec.Containers) && (forall k int :: {result.Containers[k]} 0 <= k && k < len(spec.Containers) ==> contDone(result.Containers[k], old(spec.Containers[k]), sub))
+
+// PodSpec.DeepCopy (generated): a fresh copy; containers and init containers are equal element by element, in fresh arrays
+//@ pure sameConts(a []v1.Container, b []v1.Container) bool = len(a) == len(b) && (forall k int :: {a[k]} {b[k]} 0 <= k && k < len(a) ==> a[k] == b[k])
+//@ extern func (*k8s.io/api/core/v1.PodSpec).DeepCopy
+//@   params in
+//@   fresh result
+//@   ensures in != nil ==> result != nil && sameConts(result.Containers, in.Containers) && sameConts(result.InitContainers, in.InitContainers)
+//@        && (in.Containers == nil ? result.Containers == nil : fresh(result.Containers)) && (in.InitContainers == nil ? result.InitContainers == nil : fresh(result.InitContainers))
+//@        && (len(in.Containers) > 0 && len(in.InitContainers) > 0 ==> !samearray(result.Containers, result.InitContainers))
+
+// The pod spec of a task: a deep copy of the template in which every container and init container is substituted with
+// one and the same function (built from, in this order of priority, the Job's substitutions, the job context and the task
+// context, then the reserved prefixes emptied); the template itself is left untouched.
+//@ func SubstitutePodSpec
+//@   tags C18
+//@   requires rj != nil
+//@   assumes production-context-provider: typeis(variablecontext.ContextProvider, *variablecontext.defaultProvider)
+//@   ensures [C18] as-many-containers-as-the-template: len(result.Containers) == len(podSpec.Containers) && len(result.InitContainers) == len(podSpec.InitContainers)
+//@   ensures [C18] template-untouched: forall k int :: 0 <= k && k < len(podSpec.Containers) ==> podSpec.Containers[k] == old(podSpec.Containers[k])
